@@ -65,7 +65,11 @@ def run(repo, res):
                     continue
                 n += 1
                 it.steps = 0
-                got_c, got_i = scenario(it, facts, body, inst)
+                try:
+                    got_c, got_i = scenario(it, facts, body, inst)
+                except InterpRaise as e:
+                    bad_inst.append((sorted(body), sorted(inst), 'raises %s' % e, 'a table'))
+                    continue
                 want_c = ('body', next(c for c in MRO if c in body)) if body else None
                 want_i = 'inst' if inst else want_c
                 if got_c != want_c:
@@ -93,6 +97,13 @@ def run(repo, res):
               'the merged table holds %s, Python selects %s (%d of %d combinations differ)'
               % (b[0][0] if b else '', b[0][1] if b else '', b[0][2] if b else '', b[0][3] if b else '', len(bad_inst), n),
               sample='InstanceValue(%s)._attrs agrees with instance-assignment > MRO on all %d combinations' % (MRO[0], n))
+
+    # instance-assignment tables are shared objects (the module's grouping of `self.x = ...` sites): computing the table of a
+    # derived instance must not change what a base instance, or a sibling, sees
+    ok, detail = sharing_scenario(it, facts)
+    res.check('C06-R1', 'instance tables of a subclass do not leak into its base', ok, NAME, iv.lineno,
+              'B(A), both assign self.m: after the instance table of B was computed, %s' % detail,
+              sample='the assignment sites recorded for a base class are not extended by its subclasses')
 
     # ---- R3 dispatch chains -------------------------------------------------------------------------
     check_dispatch(repo, res, facts)
@@ -178,6 +189,40 @@ def scenario(it, facts, body, inst):
     iattrs = it.getattr(iv, '_attrs')
     got_i = iattrs.get('m')
     return got_c, got_i
+
+
+def sharing_scenario(it, facts):
+    CO, IV, MV = facts.classes['ClassObject'], facts.classes['InstanceValue'], facts.classes['MultiValue']
+    assigns = AssignsModel()
+    top = Obj(facts.classes['SourceScope'], {}, 'TOP')
+    top.attrs['assigns'] = Native('assigns', lambda i, a, k: assigns)
+    ctx = Unknown('ctx')
+    objs, mvs = {}, {}
+    for c, bases in (('A', []), ('B', ['A'])):
+        sc = Obj(facts.classes['ClassScope'], {'top': top, 'names': {}, 'locals': set(),
+                                               'flow': Obj(facts.classes['Flow'], {'names': {}}, 'exit region of ' + c)}, 'scope' + c)
+        o = Obj(CO, {'ctx': ctx, 'scope': sc}, 'class ' + c)
+        o.attrs['bases'] = [objs[b] for b in bases]
+        objs[c] = o
+        site = Obj(facts.classes['AssignedAttribute'], {'name': 'm'}, 'self.m = ... in ' + c)
+        try:
+            mv = it.instantiate(MV, [site], {})
+        except InterpRaise as e:
+            return False, 'MultiValue(site) raises %s' % e
+        mvs[c] = (mv, site)
+        assigns[o] = {'m': mv}
+    try:
+        ib = it.call(it.getattr(objs['B'], 'call'), [ctx], {})
+        tb = it.getattr(ib, '_attrs')
+        ia = it.call(it.getattr(objs['A'], 'call'), [ctx], {})
+        ta = it.getattr(ia, '_attrs')
+    except InterpRaise as e:
+        return False, 'the instance tables raise %s' % e
+    va = list(mvs['A'][0].attrs.get('values') or [])
+    vb = list(mvs['B'][0].attrs.get('values') or [])
+    got_a = ta.get('m')
+    ok = va == [mvs['A'][1]] and vb == [mvs['B'][1]] and got_a is mvs['A'][0]
+    return ok, 'the sites recorded for A.m are %s (must stay [%s]), for B.m %s; an instance of A resolves m to %s' % (va, mvs['A'][1], vb, got_a)
 
 
 def check_dispatch(repo, res, facts):
